@@ -26,7 +26,8 @@ ASSUMPTIONS = [
     "a coordinate token is what Python's str() prints for the numpy double; the model treats it as an opaque "
     "well-formed token and the oracle checks float(token) == coordinate bitwise on the real file",
     "STL facet normal tokens are a parameter of the model (taken from the real file) and are checked geometrically "
-    "by the oracle: parallel (1e-7) to the triangle's own normal and pointing out of the solid",
+    "by the oracle: parallel (1e-9 + rounding bound of the cross product) to the triangle's own normal, pointing out "
+    "of the solid; fan triangles must tile the face (boundary chain = face cycle, positive orientation, area 1e-8)",
     "XML serialisation (element tree <-> text) is not proved: the model's ElementTree serialiser is compared byte for "
     "byte with the real file, which is re-parsed with expat/minidom (X3D) and html.parser (HTML)",
     "all generated solids are convex: 'outward' is tested per face against the vertex mean and by signed volume > 0",
@@ -561,9 +562,13 @@ def compare_stl(p, facets):
                 raise Bad("triangle-orientation", "triangle %r of face %r is flipped" % ((a, b, c), f))
             if not (np.dot(n, g) > 0 and np.dot(n, fn) > 0 and np.dot(n, out) > 0):
                 raise Bad("normal-not-outward", "triangle %r normal %r" % ((a, b, c), n.tolist()))
-            if np.linalg.norm(np.cross(n, g)) > 1e-7 * np.linalg.norm(n) * np.linalg.norm(g):
+            # rounding of a cross product of coordinate differences: eps * |coordinate| * |edge| per component
+            T = ref[[a, b, c]]
+            emax = max(np.linalg.norm(T[1] - T[0]), np.linalg.norm(T[2] - T[1]), np.linalg.norm(T[0] - T[2]))
+            slack = 1e-9 + 64 * np.finfo(float).eps * np.abs(T).max() * emax / (2 * np.linalg.norm(g))
+            if np.linalg.norm(np.cross(n, g)) > slack * np.linalg.norm(n) * np.linalg.norm(g):
                 raise Bad("normal-not-perpendicular", "triangle %r normal %r" % ((a, b, c), n.tolist()))
-        if abs(tot - farea) > 1e-9 * farea:
+        if abs(tot - farea) > 1e-8 * farea:
             raise Bad("triangles-do-not-cover-face", "face %r: area %r, triangles %r" % (f, farea, tot))
 
 
@@ -672,7 +677,8 @@ def eval_case(ctx, case):
                 getattr(io, WRITERS[ft])(p, path)
                 files[ft] = open(path, "rb").read()
             except Exception as e:
-                ctx.fail(sig + "raises", "%s raised %s on a valid polyhedron" % (WRITERS[ft], exc_kind(e)), case, repr(e))
+                ctx.fail(sig + "raises:" + exc_kind(e), "%s raised %s on a valid polyhedron" % (WRITERS[ft], exc_kind(e)),
+                         case, repr(e))
                 continue
             if snapshot(p) != snap0:
                 ctx.fail(sig + "mutates-shape", "exporting changed the shape's vertices / faces / cached arrays", case, ft)
